@@ -1141,6 +1141,11 @@ class TrajectoryStore:
         if '_index' in base_nc_file.dataset[0].groups:
             self.index_group = base_nc_file.dataset[0].groups['_index']
             self.indexable = True
+        else:
+            # An existing file without an index group holds trajectories
+            # without flight IDs: the store is not indexable, and must stay
+            # that way if we append to it.
+            self.indexable = False
 
         # Open any associated NetCDF files.
         for name in self.associated_files:
